@@ -91,6 +91,36 @@ pub fn eval(c: &Case) -> Verdict {
     v
 }
 
+/// Everything a session emits is read twice: by the reference decoder (OutDec) and by the
+/// library's own ChunkDeserializer, which must deliver the same messages (an accepted
+/// configuration must give a stream the library itself can read, whatever the chunk size).
+struct Both {
+    outdec: OutDec,
+    libde: ChunkDeserializer,
+    ref_msgs: Vec<Msg>,
+    lib_msgs: Vec<Msg>,
+}
+
+impl Both {
+    fn new() -> Both {
+        Both { outdec: OutDec::new(), libde: ChunkDeserializer::new(), ref_msgs: Vec::new(), lib_msgs: Vec::new() }
+    }
+
+    fn packet(&mut self, bytes: &[u8], droppable: bool) -> Result<Vec<OutMsg>, String> {
+        let ms = self.outdec.packet(bytes, droppable)?;
+        for m in &ms {
+            self.ref_msgs.push(m.dec.msg.clone());
+        }
+        if let Some(e) = lib_feed(&mut self.libde, bytes, &mut self.lib_msgs) {
+            return Err(format!("the library's own deserializer cannot read what the session emitted: {}", e));
+        }
+        if let Some(d) = first_difference(&self.lib_msgs, &self.ref_msgs) {
+            return Err(format!("the library's own deserializer reads the session's output differently from a conformant decoder: {}", d));
+        }
+        Ok(ms)
+    }
+}
+
 fn near(v: u64, limits: &[u64]) -> bool {
     limits.iter().any(|l| (v as i128 - *l as i128).abs() <= 1)
 }
@@ -237,7 +267,7 @@ fn eval_inner(c: &Case, obs: &mut Obs) -> Verdict {
                 Ok((mut s, init)) => {
                     vensure!(chunk_ok, "ServerSession::new accepted chunk size {} (outside 1..=2^31-1)", chunk);
                     // drive connect + accept with the reference peer
-                    let mut outdec = OutDec::new();
+                    let mut outdec = Both::new();
                     let (mut a_chunk, mut a_window, mut a_bw, mut a_bwdone) = (Vec::new(), Vec::new(), Vec::new(), 0u32);
                     for (b, d) in split_server(init).packets {
                         match outdec.packet(&b, d) {
@@ -345,7 +375,7 @@ fn eval_inner(c: &Case, obs: &mut Obs) -> Verdict {
                     return Verdict::Pass(std::mem::take(obs));
                 }
             };
-            let mut outdec = OutDec::new();
+            let mut outdec = Both::new();
             for (b, d) in split_client(init).packets {
                 if let Err(e) = outdec.packet(&b, d) {
                     vfail!("constructor packets undecodable: {}", e);
@@ -401,7 +431,8 @@ fn eval_inner(c: &Case, obs: &mut Obs) -> Verdict {
                 let mut peer = PeerEnc::new();
                 // the server's greeting first; it happens to announce the very values the client is
                 // configured with (a configuration value is honoured whatever the peer's values are)
-                let mut greeting = peer.send(&RM::WindowAck((*window).max(1)), 0, 0);
+                let mut greeting = if chunk_ok { peer.set_chunk_size(*chunk, 0) } else { Vec::new() };
+                greeting.extend(peer.send(&RM::WindowAck((*window).max(1)), 0, 0));
                 greeting.extend(peer.send(&RM::PeerBw(*window, 2), 0, 0));
                 if let Err(e) = cs.handle_input(&greeting) {
                     vfail!("the server's greeting (window {}) failed: {:?}", window, e);
